@@ -146,10 +146,9 @@ struct mnet {
 	int handles;              /* network references held by the harness */
 	int n_live;               /* live entries (stored, or zombie still referenced) */
 	int n_stored;
-	int any_wide;             /* a subno >= 0x100 was ever stored (8 bit statistics quirk) */
 	uint8_t  ptype[0x800];
-	uint16_t ever_max[0x800];
-	uint8_t  emu8_max[0x800];
+	uint16_t stale_max[0x800]; /* named quirk Q-hi-subno-stale: what a statistic that only ever grows
+				      while the page has subpages (zombies included) would say */
 };
 
 static struct ment ent[MAXE];
@@ -252,10 +251,9 @@ static int net_alloc(void)
 	for (i = 0; i < MAXNET; i++)
 		if (!mnets[i].used) {
 			struct mnet *n = &mnets[i];
-			n->used = 1; n->cn = NULL; n->handles = 0; n->n_live = 0; n->n_stored = 0; n->any_wide = 0;
+			n->used = 1; n->cn = NULL; n->handles = 0; n->n_live = 0; n->n_stored = 0;
 			memset(n->ptype, VBI_UNKNOWN_PAGE, sizeof n->ptype);
-			memset(n->ever_max, 0, sizeof n->ever_max);
-			memset(n->emu8_max, 0, sizeof n->emu8_max);
+			memset(n->stale_max, 0, sizeof n->stale_max);
 			return i;
 		}
 	return -1;
@@ -315,14 +313,15 @@ static void report(int fatal, const char *key, const char *fmt, ...)
 enum { C_PUT, C_PUT_REPLACE, C_PUT_REPLACE_HELD, C_GET_HIT, C_GET_MISS, C_GET_WILD, C_ISCACHED, C_HI, C_REF, C_UNREF,
        C_UNREF_ZOMBIE, C_FOREACH, C_FOREACH_VISITS, C_TYPE, C_CHSW, C_NETADD, C_NETDROP, C_EVICT, C_PRESSURE_OPS,
        C_AUDITS, C_AUDIT_PAGES, C_HELD_ACROSS_DROP, C_INTACT_CHECKS, C_SEQS, C_TEARDOWN_HEAP, C_TEARDOWN_LSAN,
-       C_DEC_HIST, C_RAW_HIST, C_NET_RECYCLED, C_QUIRK_HI_STALE, C_QUIRK_STAT8, C_QUIRK_CLOCK23, C_FOREACH_STUCK, N_C };
+       C_DEC_HIST, C_RAW_HIST, C_NET_RECYCLED, C_QUIRK_HI_STALE, C_QUIRK_CLOCK23, C_FOREACH_STUCK,
+       C_FOREACH_UNSTOPPED, C_EVICT_REUSE, C_HI_SHRUNK, N_C };
 static const char *const cname[N_C] = { "puts", "puts_replacing", "puts_replacing_held_page", "get_hits", "get_misses",
 	"get_wildcard", "is_cached_queries", "hi_subno_queries", "page_refs", "page_unrefs", "unrefs_of_zombie_pages",
 	"foreach_calls", "foreach_visits", "page_type_updates", "channel_switches", "network_adds", "network_drops",
 	"evictions_observed", "ops_under_memory_pressure", "structural_audits", "pages_walked_in_audits",
 	"pages_held_across_network_drop", "content_checks", "histories", "teardown_heap_checks", "teardown_leak_checks",
 	"decoder_mode_histories", "raw_cache_histories", "network_structs_recycled", "quirk_hi_subno_stale",
-	"quirk_subno_stat_8bit", "quirk_clock_23xx", "foreach_stuck" };
+	"quirk_clock_23xx", "foreach_stuck", "foreach_not_stopped", "evictions_by_reuse", "hi_subno_after_removal" };
 static long cnt[N_C];
 
 static void flush_counts(void)
@@ -774,7 +773,7 @@ static void arm_stuck(int ms)
 	setitimer(ITIMER_PROF, &it, NULL);
 }
 
-struct fe_ctx { int net; int visits, maxv; int bad; };
+struct fe_ctx { int net; int visits, maxv; int bad; int stopped; };
 
 static int fe_cb(cache_page *cp, vbi_bool wrapped, void *ud)
 {
@@ -797,12 +796,13 @@ static int fe_cb(cache_page *cp, vbi_bool wrapped, void *ud)
 		FAIL(1, "model:C10:foreach-phantom", "foreach visits page %x.%x which is not stored in this network according to the reference map", cp->pgno, cp->subno);
 		c->bad = 1;
 	}
-	return (c->bad || c->visits >= c->maxv) ? 1 : 0;
+	if (c->bad || c->visits >= c->maxv) { c->stopped = 1; return 1; }
+	return 0;
 }
 
-static void hold(struct ment *e)
+static void hold(struct ment *e)      /* callers make sure there is room: a reference not recorded here would never be released */
 {
-	if (n_held < MAXHELD) held[n_held++] = (int)(e - ent);
+	held[n_held++] = (int)(e - ent);
 }
 
 static int do_unref_entry(struct ment *e, int *evict_ok)
@@ -833,20 +833,15 @@ static int check_hi(int m, int pgno)
 	if (dec) actual = vbi_cache_hi_subno(dec, pgno);
 	else actual = cache_network_const_page_stat(mn->cn, pgno)->subno_max;   /* this is all vbi_cache_hi_subno() does */
 	cnt[C_HI]++;
+	if (strict < (int)mn->stale_max[idx]) cnt[C_HI_SHRUNK]++;   /* the highest subpage was replaced / evicted / dropped earlier */
 	if (actual == strict) return 1;
-	if (actual == (int)mn->ever_max[idx]) {
-		FAIL(0, "model:C10:Q-hi-subno-stale", "highest subpage of %x reported %x, highest stored is %x: the statistic never decreases after the highest subpage was replaced or evicted",
+	if (actual == (int)mn->stale_max[idx]) {
+		FAIL(0, "model:C10:Q-hi-subno-stale", "highest subpage of %x reported %x, highest stored is %x: the statistic does not decrease when the highest subpage is replaced or evicted",
 		     pgno, actual, strict);
 		cnt[C_QUIRK_HI_STALE]++;
 		return 1;
 	}
-	if (actual == (int)mn->emu8_max[idx]) {
-		FAIL(0, "model:C10:Q-subno-stat-8bit", "highest subpage of %x reported %x, highest stored is %x: subno_min/subno_max are 8 bits wide, clock subcodes >= 0x100 are truncated",
-		     pgno, actual, strict);
-		cnt[C_QUIRK_STAT8]++;
-		return 1;
-	}
-	FAIL(1, "model:C10:hi-subno", "highest subpage of %x reported %x, highest stored is %x (highest ever stored %x)", pgno, actual, strict, mn->ever_max[idx]);
+	FAIL(1, "model:C10:hi-subno", "highest subpage of %x reported %x, highest stored is %x (a never decreasing statistic would say %x)", pgno, actual, strict, mn->stale_max[idx]);
 	return 0;
 }
 
@@ -893,9 +888,8 @@ static int do_foreach(int m_, const struct op *o_)
 	mn = &mnets[m];
 	for (i = 0; i < n_live; i++)
 		if (ent[live[i]].net == m && ent[live[i]].state == ST_ZOMBIE) any_zombie = 1;
-	if (mn->n_stored == 0 && any_zombie) { hist_add("(skipped)"); return -1; }
 	if (o->pgno < 0x100 || o->pgno > 0x8FF) return -1;
-	c.net = m; c.visits = 0; c.maxv = o->keep > 0 ? o->keep : 1; c.bad = 0;
+	c.net = m; c.visits = 0; c.maxv = o->keep > 0 ? o->keep : 1; c.bad = 0; c.stopped = 0;
 	cnt[C_FOREACH]++;
 	vf_phase("_vbi_cache_foreach_page");
 	if (sigsetjmp(stuck_env, 1) == 0) {
@@ -907,18 +901,36 @@ static int do_foreach(int m_, const struct op *o_)
 	} else {
 		arm_stuck(0);
 		cnt[C_FOREACH_STUCK]++;
-		FAIL(1, "model:C10:foreach-stuck", "_vbi_cache_foreach_page(%x.%x dir %+d) made no progress for 0.4 s CPU after %d visits; the network holds %d stored pages; cause=%s",
+		FAIL(1, "model:C10:foreach-stuck", "_vbi_cache_foreach_page(%x.%x dir %+d) made no progress for 0.4 s CPU after %d visits; the network holds %d stored pages (%s)",
 		     o->pgno, o->subno, o->a, c.visits, mnets[m].n_stored,
-		     mnets[m].any_wide ? "8bit-subno-stat (a subcode >= 0x100 was stored in this network)" : "other");
+		     "unknown");
 		return 0;
 	}
 	cnt[C_FOREACH_VISITS] += c.visits;
 	if (c.bad) return 0;
 	if (mnets[m].n_stored == 0) {
-		if (r != 0 || c.visits) { FAIL(1, "model:C10:foreach-empty", "foreach on a network without pages returned %d after %d visits", (int)r, c.visits); return 0; }
-	} else if (r != 1) {
-		FAIL(1, "model:C10:foreach-result", "foreach returned %d, the callback stopped it with 1 after %d visits", (int)r, c.visits);
-		return 0;
+		/* nothing to hand out; 0 = the network has no pages at all, -1 = went around (only replaced pages still held exist) */
+		if (r != (any_zombie ? -1 : 0) || c.visits) {
+			FAIL(1, "model:C10:foreach-empty", "foreach on a network without stored pages (%s) returned %d after %d visits",
+			     any_zombie ? "only replaced pages still held" : "none at all", (int)r, c.visits);
+			return 0;
+		}
+	} else if (c.stopped) {
+		if (r != 1) {
+			FAIL(1, "model:C10:foreach-result", "foreach returned %d, the callback stopped it with 1 after %d visits", (int)r, c.visits);
+			return 0;
+		}
+	} else {
+		/* the callback never asked to stop: the walk ends by itself after it wrapped around (result -1) */
+		cnt[C_FOREACH_UNSTOPPED]++;
+		if (r != -1) {
+			FAIL(1, "model:C10:foreach-result", "foreach returned %d although the callback returned 0 on all %d visits (the walk ending by itself returns -1)", (int)r, c.visits);
+			return 0;
+		}
+		if (c.visits == 0) {
+			FAIL(1, "model:C10:foreach-nothing-visited", "foreach went around a network with %d stored pages without handing out any", mnets[m].n_stored);
+			return 0;
+		}
 	}
 	return 1;
 }
@@ -983,6 +995,30 @@ static int apply(const struct op *o)
 			if (victim->refs > 0) { victim->state = ST_ZOMBIE; mn->n_stored--; cnt[C_PUT_REPLACE_HELD]++; }
 			else ent_gone(victim);
 		}
+		/* The cache may reuse the memory of a page it evicts for the new one (one candidate
+		 * of equal size).  Whatever the reference map still has at that address is gone;
+		 * whether it was allowed to go is decided as for any other eviction. */
+		{
+			int i;
+			for (i = 0; i < n_live; i++) {
+				struct ment *x = &ent[live[i]];
+				if (x->cp != got) continue;
+				if (x->refs > 0) {
+					FAIL(1, "model:C10:held-page-freed", "put of %x.%x returned the memory of page %x.%x version %u which the caller still references (%d refs)",
+					     o->pgno, o->subno, x->pgno, x->subno, x->vid, x->refs);
+					return 0;
+				}
+				if (!(mnets[x->net].handles == 0 || evict_ok)) {
+					FAIL(1, "model:C10:page-lost", "page %x.%x version %u (%s) was stored and neither replaced nor evictable, but the put of %x.%x took its memory",
+					     x->pgno, x->subno, x->vid, szdef[x->cls].name, o->pgno, o->subno);
+					return 0;
+				}
+				if (mnets[x->net].handles != 0) cnt[C_EVICT]++;
+				cnt[C_EVICT_REUSE]++;
+				ent_gone(x);
+				break;           /* at most one entry per address */
+			}
+		}
 		e = &ent[n_ent++];
 		memset(e, 0, sizeof *e);
 		e->state = ST_STORED; e->net = m; e->pgno = o->pgno; e->subno = stored; e->put_subno = o->subno; e->cls = o->a;
@@ -1002,20 +1038,26 @@ static int apply(const struct op *o)
 				e->subno = stored = s2;      /* follow the implementation from here on */
 			}
 		}
-		if (stored > mn->ever_max[o->pgno - 0x100]) mn->ever_max[o->pgno - 0x100] = (uint16_t)stored;
-		if (stored > mn->emu8_max[o->pgno - 0x100]) mn->emu8_max[o->pgno - 0x100] = (uint8_t)stored;
-		if (stored >= 0x100) mn->any_wide = 1;
 		if (!check_intact(e, got, "put")) return 0;
 		if (got->ref_count != 1) { FAIL(1, "model:C10:audit:page-ref_count", "put returned page %x.%x with ref_count=%u", got->pgno, got->subno, got->ref_count); return 0; }
-		if (o->keep) hold(e);
+		if (!audit(evict_ok, o->kind)) return 0;    /* the reference map now knows what this put evicted */
+		{
+			/* named quirk Q-hi-subno-stale: a statistic that starts afresh with the first subpage of a page
+			 * (replaced pages still held count) and otherwise only grows */
+			int i, n = 0;
+			uint16_t *sm = &mn->stale_max[o->pgno - 0x100];
+			for (i = 0; i < n_live; i++)
+				if (ent[live[i]].net == m && ent[live[i]].pgno == o->pgno) n++;
+			if (n <= 1 || stored > (int)*sm) *sm = (uint16_t)stored;
+		}
+		if (o->keep && n_held < MAXHELD) hold(e);
 		else {
 			/* the way store_lop() uses it: put, then release at once */
-			if (!audit(evict_ok, o->kind)) return 0;
 			evict_ok = 0;
 			e->born_op = -1;              /* from now on it may be evicted like any other page */
 			do_unref_entry(e, &evict_ok);
+			if (!audit(evict_ok, o->kind)) return 0;
 		}
-		if (!audit(evict_ok, o->kind)) return 0;
 		return check_hi(m, o->pgno);
 	}
 	case OP_GET:
@@ -1073,7 +1115,7 @@ static int apply(const struct op *o)
 			FAIL(1, "model:C10:audit:page-ref_count", "get returned page %x.%x with ref_count=%u, the caller now holds %d", got->pgno, got->subno, got->ref_count, e->refs);
 			return 0;
 		}
-		if (o->kind == OP_GET && o->keep) hold(e);
+		if (o->kind == OP_GET && o->keep && n_held < MAXHELD) hold(e);
 		else do_unref_entry(e, &evict_ok);
 		break;
 	}
@@ -1372,7 +1414,7 @@ static int run_exhaustive(long idx)
 
 static const int r_pgno[] = { 0x100, 0x100, 0x111, 0x123, 0x123, 0x171 /* same hash chain as 100 */, 0x199, 0x1A0, 0x1AB, 0x1AB,
 	0x1E2 /* same chain */, 0x2FE, 0x300, 0x899, 0x8FE, 0x1FF /* never stored */ };
-static const int r_subno[] = { 0, 0, 0, 1, 1, 2, 3, 0x10, 0x59, 0x79, 0x7A, 0x80, 0x0100, 0x1234, 0x2300, 0x2359, 0x2400, 0x3F71, 0x3F7F, 0x0012 };
+static const int r_subno[] = { 0, 0, 0, 1, 1, 2, 3, 0x10, 0x59, 0x79, 0x7A, 0x0A, 0x0100, 0x1234, 0x2300, 0x2359, 0x2400, 0x3F71, 0x3F7F, 0x0012 };
 static const int r_mask[] = { -1, -1, 0, 0x000F, 0x00FF, 0x3F7F };
 static const unsigned long r_limit[] = { 4504, 4504 + 1196, 4504 + 1564, 3 * 1564, 2 * 4504, 4504 + 2436 + 1804, 12000, 20000, 40000 };
 
@@ -1453,6 +1495,8 @@ static int run_case(struct vf_rng *r, long idx)
 		sigaction(SIGPROF, &sa, NULL);
 		/* make the runtime allocate its buffers and counter names now, not inside a heap-checked window */
 		for (i = 0; i < N_C; i++) vf_count(cname[i], 0);
+		/* the first vbi_decoder_new() of a process runs vbi_init() (bindtextdomain allocates once) */
+		vbi_decoder_delete(vbi_decoder_new());
 		vf_sig("job=%s", vf_mode);
 		vf_log("  (replay, mode %s)\n", vf_mode);
 	}
